@@ -2,7 +2,7 @@
 /* C07.update_base_search: query := input without one leading "?"; empty input clears the query (used to copy a base query) */
 void harness(void) {
   EDITOR_PROLOGUE
-  sv_t input; input.n = nondet_size(); MAKE_SV(input);
+  ND_SV(input);
   __CPROVER_assume(IN_CLASS(input, '#', '#', '#', '#', '#'));
   __CPROVER_assume(u.buffer.n + input.n + 1 <= STR_CAP);
 
